@@ -289,6 +289,17 @@ func c08SCIONPacket(tp *simcore.Tape, l4dst uint16, segLens []int, withAuth, wit
 			s.NextHdr = slayers.End2EndClass
 		}
 	}
+	if tp.Bool(1, 4, "hbh") {
+		// a hop-by-hop extension header in front of whatever follows
+		h := slayers.HopByHopExtn{}
+		h.NextHdr = s.NextHdr
+		data := make([]byte, []int{0, 2, 6, 10}[tp.Intn(4, "hbhlen")])
+		rand.Read(data)
+		h.Options = append(h.Options, &slayers.HopByHopOption{OptType: slayers.OptionType([]int{0, 1, 7, 200}[tp.Intn(4, "hbhtype")]), OptData: data})
+		if err := h.SerializeTo(buffer, opts); err == nil {
+			s.NextHdr = slayers.HopByHopClass
+		}
+	}
 	if err := s.SerializeTo(buffer, opts); err != nil {
 		panic(err)
 	}
